@@ -13,17 +13,17 @@ CLAIMS = {
  "C01": ("One inductive step of Processor.Process from an arbitrary protocol phase (symbolic state, packet type, body, callbacks, dial outcome) plus K-packet histories from the initial state; "
          "asserts success-only-in-order, dial only in phase 3 after the host check and at most once, relay only on DATA with an open channel, nothing read after an error/close response, loop invariant re-established. "
          "Bounded model checking is the right level: the quantifier is over all packet histories, which the step covers by induction (paper argument) and the K-bounded run cross-checks.",
-         "6.C01", "Transport, net.Conn, net.DialTimeout and the three policy callbacks are stubs with the contracts of DESIGN Appendix C; body <= 10 (quick) / 14 (thorough) bytes; inner declared lengths <= carried+4; client-name units after the first are ASCII; induction over steps is a paper argument; the websocket/legacy transports themselves are outside; 'token authentication implies a wired cookie check' is checked on the real main() (VP_C05_routes)."),
+         "6.C01", "Transport, net.Conn, net.DialTimeout and the three policy callbacks are stubs with the contracts of DESIGN Appendix C; body <= 10 (quick) / 14 (thorough) bytes; inner declared lengths <= carried+4; client-name units after the first are ASCII; induction over steps is a paper argument; the websocket/legacy transports have their own harnesses (C06/C11); a late IN connection for an ended legacy tunnel is covered by VP_C01_legacy_dead_tunnel; 'token authentication implies a wired cookie check' is checked on the real main() (VP_C05_routes)."),
  "C02": ("security.CheckPAACookie and GeneratePAAToken executed symbolically around contract stubs of go-jose/go-oidc: acceptance implies HS256 allow-list, MAC under the PAA signing key (not any other gateway key), issuer, expiry with the real go-jose Validate arithmetic over symbolic times, IdP verdict on the embedded access token, tunnel bound to the verified claims; minting: HS256 + signing key, expiry - now <= 300 s, refusal under 32 bytes.",
-         "6.C02", "Cryptography is replaced by contracts (DESIGN Appendix C): unforgeability, base64/JSON parsing, bit-mutation resistance and 'a freshly minted token is accepted' are NOT decided; claim strings are 2 (4) symbolic bytes."),
+         "6.C02", "Cryptography is replaced by contracts (DESIGN Appendix C): unforgeability, base64/JSON parsing and bit-mutation resistance are NOT decided; mint-then-verify is composed at the level of the captured claims (VP_C02_mint_then_verify); the tunnel's connect time is symbolic; claim strings are 2 (4) symbolic bytes."),
  "C03": ("channelRequest/DecodeUTF16 decoded against an independent per-code-unit oracle for all names up to 3 (quick) / 5 (thorough) UTF-16 units and all declared sizes; the step harness proves the string given to CheckHost is byte-equal to the string dialed and that a refusal dials nothing; security.CheckHost/CheckSession policy over bounded host lists and names against an oracle written from the property text.",
          "6.C03", "Names <= 5 units, host strings <= the stated byte bounds, <= 2 (3) host entries with affixes <= 1 byte; DNS/IPv6 semantics of the dialed string are outside (the property is byte equality)."),
  "C04": ("CheckSession for all token/presenting address pairs (<= 3/5 bytes, attribute present/absent/non-string) and both switch settings; EnrichContext's client-address derivation from X-Forwarded-For / peer address against an independent oracle; the cookie check binds the tunnel to the verified address claim and the mint writes the clientIp attribute (shared C02 harnesses).",
          "6.C04", "X-Forwarded-For <= 4 (6) ASCII bytes; four representative peer addresses; textual variants of one IP are different strings by design of the property."),
  "C05": ("BasicAuth / NTLMAuth middlewares and NoAuthz/SetAuthenticate executed symbolically against a stubbed authentication service (next handler reached iff the backend confirmed, identity = confirmed name, 401/500 and challenge headers otherwise, no panic for any header value the route matcher can deliver), and the route table that main() builds for every startable subset of mechanisms: the tunnel handler is reachable bare iff OpenID is the only mechanism, otherwise only through the wrapper of an enabled scheme whose keyword the header carries; no header -> 401 with one challenge per enabled scheme.",
          "6.C05", "main() is executed up to ListenAndServe with gorilla/mux's builder methods recording a ghost route table (VP_C05_routes): requests with an arbitrary Authorization value (<= 9/12 bytes) are dispatched by mux's documented rules (registration order, unanchored HeadersRegexp, MatcherFunc), for every startable mechanism subset. gorilla/mux's own matching, regexp beyond literal words, SPNEGO validation and net/http header parsing are contracts, not decided."),
- "C06": ("forward() and receive() executed symbolically: per read / per DATA packet exactness, header and payload length fields, order, single write, no invented bytes; sizes around 0,1,2,255,4085,4086 (thorough 256,4087,8200).",
-         "6.C06", "net.Conn and Transport stubs deliver what they are given; whole-stream exactness follows from per-packet exactness plus C08 framing (paper argument); multi-MiB streams and interleaving of the two directions are outside."),
+ "C06": ("forward() and receive() executed symbolically: per read / per DATA packet exactness, header and payload length fields, order, single write, no invented bytes; sizes around 0,1,2,255,4085,4086,65535,65536 (thorough 256,4087,70000); K-packet DATA/KEEPALIVE streams through the packet loop; the real LegacyPKT/WSPKT transports over a modelled peer (stalls, resets, write deadlines, message types).",
+         "6.C06", "net.Conn / gorilla Conn are contract models (DESIGN 6.C06); whole-stream exactness follows from per-packet exactness plus C08 framing (paper argument); multi-MiB streams and interleaving of the two directions are outside."),
  "C07": ("One arbitrary packet on tunnel A from an arbitrary phase while a fully symbolic tunnel B is registed: B's phase, identity, token host, address, transports, backend and registry entry and the shared Gateway are asserted unchanged; HandleGatewayProtocol run for two requests with symbolic connection ids and kinds shows connections share a tunnel only under equal ids.",
          "6.C07", "2 tunnels, 1 step; 3..64 tunnels and real scheduling are not explored (commutation of disjoint steps is a paper argument); go-cache is a contract stub."),
  "C08": ("readMessage/readHeader run on every segmentation shape of k<=2 (3) packets: whole, two-fragment at every cut, three-fragment, coalesced, oversize first fragment, and a single arbitrary read with all 2^32 length-field values.",
@@ -33,7 +33,7 @@ CLAIMS = {
  "C10": ("Every implicit runtime panic on every explored path is an SMT obligation: protocol parsers and readHeader on arbitrary bytes, the Process step, legacy request orderings, the NTLM verifier on arbitrary messages and on adversarial security-buffer descriptors (real go-ntlm parser code interpreted), Authorization header slicing, KDC-proxy list merge and channel accounting.",
          "6.C10", "setSendReceiveBuffers (reflect), net/http parsing, gorilla, gRPC, PAM (cmd/auth does not build here) and asn1 are outside; message lengths <= 24/28 bytes (NTLM), bodies <= 12/20 bytes (protocol)."),
  "C11": ("handleWebsocketProtocol / the legacy handler pair run for 0..6 (8) set-up/data packets followed by each way the client side can end; ghost state at return: backend closed, both client transports closed, registry entry gone, gauges restored, and the relay goroutine terminates (cooperative scheduler; a goroutine left parked is a violation).",
-         "6.C11", "Transports, dial and backend are stubs; 'bounded time' is reduced to 'no goroutine left parked forever'; OS sockets and real scheduling are not observed."),
+         "6.C11", "Dial and backend are stubs; the handlers run over scripted transports, the real WSPKT/LegacyPKT Close over a modelled peer (VP_C11_transport_close); 'bounded time' is reduced to 'no goroutine left parked forever'; OS sockets and real scheduling are not observed."),
  "C12": ("HandleDownload, the Authenticated middleware, security.QueryInfo and the composition mint->tunnel checks executed symbolically: no token/file for unauthenticated sessions, host chosen per selection policy, token claims = host with user substituted / user without domain / address / access token, forced gateway settings, and acceptance of the issued host+token by CheckSession(CheckHost).",
          "6.C12", "RDP text rendering (reflection) is stubbed (see C19); strings <= 2 bytes, <= 2 (3) host entries; assumes the IdP userinfo subject equals the session user name (DESIGN 7.14)."),
  "C13": ("HandleCallback executed over every failure point (state, code exchange, id_token, verification, claims, user-name claims) with contract stubs for go-cache/oauth2/go-oidc/json: an authenticated identity reaches the session store only if every step succeeded and a non-empty user-name claim exists; identity field mapping of Marshal/Unmarshal restored for all ten fields.",
